@@ -209,10 +209,13 @@ fn pick_cap(rng: &mut Rng, max: usize) -> usize {
 }
 
 fn pick_member(rng: &mut Rng, max: usize) -> (usize, usize) {
-    let cap = pick_cap(rng, max);
-    let len = match rng.below(5) {
+    let mut cap = pick_cap(rng, max);
+    if cap == 0 && rng.chance(2, 3) {
+        cap = 1 + rng.below(40).min(max.saturating_sub(1));
+    }
+    let len = match rng.below(10) {
         0 => 0,
-        1 | 2 => cap,
+        1..=4 => cap,
         _ => rng.below(cap + 1),
     };
     (len, cap)
@@ -286,13 +289,20 @@ fn gen_buf(rng: &mut Rng, read: bool, vectored: bool, salt: u32, max: usize) -> 
         spec.kind = *rng.pick(kinds);
         spec.m = vec![pick_member(rng, max)];
         match spec.kind {
+            BK::Uninit if read && rng.chance(4, 5) => {
+                // leave spare capacity to read into
+                let (len, cap) = spec.m[0];
+                if len == cap && cap > 0 {
+                    spec.m[0].0 = rng.below(cap);
+                }
+            }
             BK::Slice => {
                 let (len, cap) = spec.m[0];
-                spec.b = rng.size(len);
-                spec.e = match rng.below(4) {
-                    0 => None,
-                    1 => Some(rng.range(spec.b, len.max(spec.b))),
-                    2 => Some(rng.range(spec.b, cap.max(spec.b))),
+                spec.b = if len > 0 && rng.chance(3, 4) { rng.below(len) } else { rng.size(len) };
+                spec.e = match rng.below(5) {
+                    0 | 1 => None,
+                    2 => Some(rng.range(spec.b, len.max(spec.b))),
+                    3 => Some(rng.range(spec.b, cap.max(spec.b))),
                     _ => Some(cap + rng.below(9)),
                 };
             }
@@ -378,6 +388,10 @@ const OPEN_COMBOS: &[u32] = &[
     O_WRITE,
     O_READ | O_WRITE,
     O_READ | O_WRITE,
+    O_READ | O_WRITE,
+    O_READ | O_WRITE,
+    O_READ | O_WRITE | O_CREATE,
+    O_READ | O_WRITE | O_CREATE,
     O_WRITE | O_CREATE,
     O_READ | O_WRITE | O_CREATE,
     O_WRITE | O_CREATE | O_TRUNC,
@@ -507,7 +521,7 @@ fn gen_op_raw(rng: &mut Rng, w: &RefWorld, salt: u32) -> Op {
             gen_open(rng, h)
         }
         // path ops
-        63..=82 => {
+        63..=79 => {
             let k = *rng.pick(&[
                 OK::PMeta,
                 OK::PMeta,
@@ -542,7 +556,7 @@ fn gen_op_raw(rng: &mut Rng, w: &RefWorld, salt: u32) -> Op {
             }
             op
         }
-        83..=86 => {
+        80..=82 => {
             if rng.chance(1, 2) {
                 let mut op = Op::new(OK::FsRead);
                 op.p = pick_path(rng, true);
@@ -556,7 +570,10 @@ fn gen_op_raw(rng: &mut Rng, w: &RefWorld, salt: u32) -> Op {
         }
         // pipes
         _ => {
-            let k = rng.below(NP);
+            let mut k = rng.below(NP);
+            if w.pipe_info(k) == (false, false) && rng.chance(3, 4) {
+                k = (0..NP).find(|k| w.pipe_info(*k) != (false, false)).unwrap_or(k);
+            }
             let (rx, tx) = w.pipe_info(k);
             let mut op = Op::new(OK::PipeNew);
             op.h = k;
@@ -568,7 +585,12 @@ fn gen_op_raw(rng: &mut Rng, w: &RefWorld, salt: u32) -> Op {
                 }
                 return op;
             }
-            let c = rng.below(100);
+            let avail = w.pipe_avail(k);
+            let mut c = rng.below(100);
+            if rx && tx && c < 65 {
+                // read what is there, write when there is nothing to read
+                c = if avail > 0 && rng.chance(2, 3) { 30 } else { 0 };
+            }
             match c {
                 0..=29 if tx => {
                     op.k = if rng.chance(3, 5) { OK::PipeWrite } else { OK::PipeWriteV };
@@ -587,7 +609,7 @@ fn gen_op_raw(rng: &mut Rng, w: &RefWorld, salt: u32) -> Op {
                     op.p = if rng.chance(4, 5) { "fifo".to_string() } else { pick_path(rng, false) };
                     op.fl = rng.below(8) as u32;
                 }
-                80..=89 if !open_slots.is_empty() => {
+                80..=83 if !open_slots.is_empty() => {
                     let h = *rng.pick(&open_slots);
                     let (size, _) = w.slot_info(h).unwrap();
                     op.k = if rng.chance(1, 2) { OK::SpliceIn } else { OK::SpliceOut };
@@ -601,7 +623,7 @@ fn gen_op_raw(rng: &mut Rng, w: &RefWorld, salt: u32) -> Op {
                         _ => size + 10,
                     };
                 }
-                90..=94 => {}
+                84..=94 => {}
                 _ => {
                     op.k = if tx { OK::PipeWrite } else { OK::PipeRead };
                     op.buf = Some(gen_buf(rng, !tx, false, salt, 1400));
@@ -649,23 +671,12 @@ struct Ctx<'a> {
     trace: bool,
 }
 
-type Fails = Vec<(&'static str, Vec<usize>, String)>;
+/// (rule, variant index, explanation): at most one per variant and step.
+type Fails = Vec<(&'static str, usize, String)>;
 
 fn add(fails: &mut Fails, rule: &'static str, v: usize, what: String) {
-    if let Some(f) = fails.iter_mut().find(|f| f.0 == rule) {
-        f.1.push(v);
-    } else {
-        fails.push((rule, vec![v], what));
-    }
-}
-
-fn variants_label(bad: &[usize]) -> String {
-    if bad.len() == VARIANTS.len() {
-        "all".to_string()
-    } else {
-        let mut b = bad.to_vec();
-        b.sort();
-        b.iter().map(|i| VARIANTS[*i]).collect::<Vec<_>>().join("+")
+    if !fails.iter().any(|f| f.1 == v) {
+        fails.push((rule, v, what));
     }
 }
 
@@ -896,7 +907,7 @@ fn run_program(ctx: &Ctx<'_>, mut src: Source<'_>, fb_ops: &[u8], tag: &str) -> 
                 .iter()
                 .enumerate()
                 .map(|(vi, g)| {
-                    if fails.iter().any(|f| f.1.contains(&vi)) {
+                    if fails.iter().any(|f| f.1 == vi) {
                         return None;
                     }
                     g.as_ref().and_then(|g| g.bufs.as_ref()).map(|b| b.iter().map(|m| m.len).collect())
@@ -921,7 +932,7 @@ fn run_program(ctx: &Ctx<'_>, mut src: Source<'_>, fb_ops: &[u8], tag: &str) -> 
             ctx.sh.beat(|| format!("snapshot after {label}"));
             let want_snap = snapshot(&roots[0]);
             for (vi, v) in ctx.variants.iter().enumerate() {
-                if got[vi].is_none() || fails.iter().any(|f| f.1.contains(&vi)) {
+                if got[vi].is_none() || fails.iter().any(|f| f.1 == vi) {
                     continue;
                 }
                 if let Some(d) = diff_snapshots(&want_snap, &snapshot(&roots[vi + 1])) {
@@ -930,17 +941,70 @@ fn run_program(ctx: &Ctx<'_>, mut src: Source<'_>, fb_ops: &[u8], tag: &str) -> 
             }
         }
         let clean = fails.is_empty();
-        for (rule, vs, what) in fails {
-            out.violations.push(Violation {
-                sig: format!("C08/{rule}/{label}/{}/{shape}", variants_label(&vs)),
-                what: format!("step {step} {}: {what}", op.to_json()),
-                step,
-            });
-            for vi in vs {
-                // the variant's state is no longer comparable; its handles may
-                // even own descriptors they should not: leak instead of close
-                let w = cws[vi].take();
-                std::mem::forget(w);
+        // A disagreement on a step that changes nothing (neither the tree nor
+        // a pipe nor the handle table) leaves the variant comparable.
+        let stateless = matches!(
+            op.k,
+            OK::ReadAt | OK::ReadVAt | OK::Meta | OK::PMeta | OK::PSymMeta | OK::FsRead | OK::SyncAll | OK::SyncData
+        );
+        for (rule, vi, what) in fails {
+            {
+                // one signature per driver variant: stable whichever other
+                // variants are still part of this program
+                out.violations.push(Violation {
+                    sig: format!("C08/{rule}/{label}/{}/{shape}", VARIANTS[vi]),
+                    what: format!("step {step} {}: {what}", op.to_json()),
+                    step,
+                });
+                let mut keep = stateless && got[vi].is_some();
+                if !keep
+                    && rule == "result"
+                    && let (Some(g), Some(cw)) = (&got[vi], cws[vi].as_ref())
+                {
+                    // try to bring the variant's files and pipes back in line
+                    // with the reference (harness-side syscalls only)
+                    ctx.sh.beat(|| format!("resync after {label} on {}", VARIANTS[vi]));
+                    let done = match op.k {
+                        OK::SpliceIn | OK::SpliceOut if g.res.ok().is_none() => {
+                            let (prx, ptx) = cw.pipe_fds(op.h2);
+                            let pfd = if op.k == OK::SpliceIn { ptx } else { prx };
+                            match (cw.file_fd(op.h), pfd, want.res.ok()) {
+                                (Some(f), Some(p), Some(n)) => redo_splice(&op, f, p).ok() == Some(n as usize),
+                                _ => false,
+                            }
+                        }
+                        OK::WriteAt | OK::WriteVAt | OK::SetLen => match (rw.file_fd(op.h), cw.file_fd(op.h)) {
+                            (Some(a), Some(b)) => copy_fd_content(a, b),
+                            _ => false,
+                        },
+                        _ => false,
+                    };
+                    if done
+                        && diff_snapshots(&snapshot(&roots[0]), &snapshot(&roots[vi + 1])).is_none()
+                        && (0..NP).all(|k| {
+                            let a = cw.pipe_avail(k);
+                            a.is_none() || a == Some(rw.pipe_avail(k))
+                        })
+                    {
+                        keep = true;
+                        if ctx.record {
+                            ctx.sh.rep(|r| r.count("variant-resynchronised-after-violation", 1));
+                        }
+                    }
+                }
+                if !keep {
+                    // the variant's state is no longer comparable
+                    if ctx.record {
+                        ctx.sh.rep(|r| r.count("variant-dropped-after-violation", 1));
+                    }
+                    let w = cws[vi].take();
+                    if matches!(rule, "open-wrong-file" | "pipe-wrong-descriptors" | "foreign-descriptor-closed") {
+                        // its handles may own descriptors they should not: leak, not close
+                        std::mem::forget(w);
+                    } else {
+                        ctx.variants[vi].rt.enter(|| drop(w));
+                    }
+                }
             }
         }
         if ctx.record && clean {
@@ -1007,7 +1071,46 @@ fn prog_from_json(v: &Value) -> (Vec<Op>, Vec<u8>) {
     (ops, fb)
 }
 
-/// Greedy one-step removal, keeping the violation signature.
+/// Do two steps touch the same handle slot, pipe slot or path?
+fn related(a: &Op, b: &Op) -> bool {
+    let slots = |o: &Op| -> (Option<usize>, Option<usize>) {
+        // (file slot, pipe slot)
+        match o.k {
+            OK::SpliceIn | OK::SpliceOut => (Some(o.h), Some(o.h2)),
+            _ if o.is_pipe_op() => (None, Some(o.h)),
+            OK::Open
+            | OK::Close
+            | OK::ReadAt
+            | OK::ReadVAt
+            | OK::WriteAt
+            | OK::WriteVAt
+            | OK::SetLen
+            | OK::SyncAll
+            | OK::SyncData
+            | OK::Meta
+            | OK::SetPerm => (Some(o.h), None),
+            _ => (None, None),
+        }
+    };
+    let (fa, pa) = slots(a);
+    let (fb, pb) = slots(b);
+    if (fa.is_some() && fa == fb) || (pa.is_some() && pa == pb) {
+        return true;
+    }
+    let paths = |o: &Op| -> Vec<String> {
+        [&o.p, &o.q]
+            .into_iter()
+            .filter(|s| !s.is_empty())
+            .map(|s| s.split('/').next().unwrap_or("").to_string())
+            .collect()
+    };
+    let pa = paths(a);
+    paths(b).iter().any(|x| pa.contains(x))
+}
+
+/// Shrink the program, keeping the violation signature: first one trial
+/// with only the steps related to the failing one (transitively, backwards),
+/// then greedy one-step removal.
 fn minimise(ctx: &Ctx<'_>, prog: &[Op], fb_ops: &[u8], viol: &Violation, budget: usize) -> Vec<Op> {
     let quiet = Ctx {
         sh: ctx.sh,
@@ -1017,19 +1120,48 @@ fn minimise(ctx: &Ctx<'_>, prog: &[Op], fb_ops: &[u8], viol: &Violation, budget:
         trace: false,
     };
     let mut cur: Vec<Op> = prog[..=viol.step.min(prog.len() - 1)].to_vec();
+    if budget == 0 || cur.len() < 2 {
+        return cur;
+    }
+    let reproduces = |cand: &[Op]| -> Option<bool> {
+        let r = run_program(&quiet, Source::Fixed(cand), fb_ops, "min");
+        if r.fatal {
+            return None;
+        }
+        Some(r.trouble.is_none() && r.violations.iter().any(|v| v.sig == viol.sig))
+    };
     let mut trials = 0;
+    // dependency slice
+    let last = cur.len() - 1;
+    let mut keep = vec![false; cur.len()];
+    keep[last] = true;
+    for i in (0..last).rev() {
+        if (i + 1..=last).any(|j| keep[j] && related(&cur[i], &cur[j])) {
+            keep[i] = true;
+        }
+    }
+    if keep.iter().any(|k| !k) {
+        let cand: Vec<Op> = cur.iter().zip(keep.iter()).filter(|x| *x.1).map(|x| x.0.clone()).collect();
+        trials += 1;
+        match reproduces(&cand) {
+            None => return cur,
+            Some(true) => cur = cand,
+            Some(false) => {}
+        }
+    }
     let mut i = cur.len().saturating_sub(1);
     while i > 0 && trials < budget {
+        if ctx.sh.rep(|r| r.out_of_time()) {
+            break;
+        }
         i -= 1;
         let mut cand = cur.clone();
         cand.remove(i);
         trials += 1;
-        let r = run_program(&quiet, Source::Fixed(&cand), fb_ops, "min");
-        if r.fatal {
-            break;
-        }
-        if r.trouble.is_none() && r.violations.iter().any(|v| v.sig == viol.sig) {
-            cur = cand;
+        match reproduces(&cand) {
+            None => break,
+            Some(true) => cur = cand,
+            Some(false) => {}
         }
     }
     cur
@@ -1062,10 +1194,30 @@ pub fn main(args: &Args) {
         what: Mutex::new(String::from("start")),
         done: AtomicBool::new(false),
     });
-    unsafe { libc::umask(0o022) };
+    unsafe {
+        libc::umask(0o022);
+        // descriptors of abandoned variants are leaked on purpose in rare cases
+        let mut rl: libc::rlimit = std::mem::zeroed();
+        if libc::getrlimit(libc::RLIMIT_NOFILE, &mut rl) == 0 && rl.rlim_cur < rl.rlim_max {
+            rl.rlim_cur = rl.rlim_max.min(65536);
+            libc::setrlimit(libc::RLIMIT_NOFILE, &rl);
+        }
+    }
     let tmp_root = if std::path::Path::new("/dev/shm").is_dir() { "/dev/shm" } else { "/tmp" };
     let base = PathBuf::from(tmp_root).join(format!("c08-{}-{}", std::process::id(), args.shard()));
     remove_tree(&base);
+    // work directories of killed predecessors (process no longer exists)
+    if let Ok(rd) = std::fs::read_dir(tmp_root) {
+        for e in rd.flatten() {
+            let name = e.file_name().to_string_lossy().into_owned();
+            if let Some(rest) = name.strip_prefix("c08-")
+                && let Some(pid) = rest.split('-').next().and_then(|p| p.parse::<u32>().ok())
+                && !std::path::Path::new(&format!("/proc/{pid}")).exists()
+            {
+                remove_tree(&e.path());
+            }
+        }
+    }
     if let Err(e) = std::fs::create_dir_all(&base) {
         sh.rep(|r| {
             r.inconclusive(&format!("cannot create work directory under {tmp_root}: {}", e.kind()));
@@ -1120,7 +1272,7 @@ pub fn main(args: &Args) {
     } else {
         let iters = args.iters(400, 4000);
         let max_steps = args.usize("steps", 40);
-        let min_budget = args.usize("min-trials", 60);
+        let min_budget = args.usize("min-trials", 24);
         let base_rng = Rng::new(args.seed()).fork(args.shard() + 1);
         let mut seen: HashSet<String> = HashSet::new();
         for i in 0..iters {
